@@ -356,7 +356,7 @@ def lexical_case(ctx, add):
     k = 0
     for nm in forms:
         for i in (rng.sample(idents, per_name) if per_name < len(idents) else idents):
-            for kname, kind in ([kinds[k % len(kinds)]] if ctx.tier == 'quick' else kinds):
+            for kname, kind in ([kinds[k % len(kinds)]] if ctx.tier == 'quick' else [kinds[(k + d) % len(kinds)] for d in (0, 3, 6)]):
                 j = idents[(k * 7 + 3) % len(idents)]
                 x = g.El(name=nm, **kind(i, j))
                 if k % 5 == 0:
@@ -372,7 +372,7 @@ def lexical_case(ctx, add):
             i, j = rng.choice(idents), rng.choice(idents)
             for key, val in rng.choice(kinds)[1](i, j).items():
                 setattr(el, key, val)
-    for _ in range(300 if ctx.tier == 'quick' else 8000):
+    for _ in range(300 if ctx.tier == 'quick' else 3000):
         cfg = rng.choice(CONFIGS)
         st = g.rand_stmt(rng, forms, rng.randint(2, 10), max_depth=3, rep_max=3, decorate=decorate)
         if g.total_copies(g.unroll(g.denote_stmt(st))) > 300:
@@ -486,7 +486,7 @@ def numbering_at_operators(ctx, add, names):
             el.attrs = [('t', w, rng.choice(['', '"']))]
         elif r < 0.58:
             el.text = w
-    for _ in range(300 if ctx.tier == 'quick' else 8000):
+    for _ in range(300 if ctx.tier == 'quick' else 3000):
         cfg = rng.choice(CONFIGS)
         st = lex.fix_ambiguous(g.rand_stmt(rng, names, rng.randint(2, 12), max_depth=3, rep_max=3, decorate=decorate))
         tree = g.unroll(g.denote_stmt(st))
@@ -526,7 +526,7 @@ def run(ctx):
                        'followed by `.class` / `#id` / several classes / `[attr]` / `{text}` / `/` / `*N` whose identifiers are '
                        'again spelled in every way (lower, UPPER, Capitalised, camelCase, digit-, dash-, underscore-first): quick = every '
                        'name spelling x 10 identifier spellings (all pairs of spelling classes, see lexical-case:name-*/ident-*), '
-                       'thorough = all pairs x all decoration kinds; as single element, parent, repeated child, group head, before '
+                       'thorough = all pairs x 3 of the 9 decoration kinds (rotating); as single element, parent, repeated child, group head, before '
                        'climbs, at a group end; plus random statements over this vocabulary (lexical-case:random); '
                        'numbering (numbering:*): item-numbering tokens `$` `$$` `$$$` `$@-` `$@N` `$@-N` `$@` `$@^` `$@^^` `$@^-` `$@^N` at the '
                        'end / start / middle of a name, class, later class, id, unquoted and quoted attribute value, text, with and '
